@@ -104,6 +104,29 @@ def check_rerun(spec: dict) -> core.CaseResult:
                 from labtech.types import ResultMeta
                 meta1 = {idx1[id(t)]: (ResultMeta(start=stored[t.cache_key][0], duration=stored[t.cache_key][1]) if t.cache_key in stored else t.result_meta)
                          for t in requested}
+        # ---- optional history step: a session in which the storage cannot be read (every open for reading raises). Its cache hits fail,
+        # but the entries of the tasks that executed successfully earlier must survive it: still reported, loaded (not re-executed) later
+        if spec.get('read_fault') and not relative and not fsspec:
+            from labtech.storage import LocalStorage
+
+            class _Unreadable(LocalStorage):
+                def file_handle(self, key, filename, *, mode='r'):
+                    if 'r' in mode:
+                        raise OSError('injected: storage temporarily unreadable')
+                    return super().file_handle(key, filename, mode=mode)
+            summary['read_fault_session'] = True
+            obsf = os.path.join(d, 'obsf')
+            os.makedirs(obsf)
+            os.environ['VERIF_OBS_DIR'] = obsf
+            tasks_f = resultcase.build_tasks(spec)
+            try:
+                labtech.Lab(storage=_Unreadable(store), runner_backend='serial' if spec['b1'] == 'spawn' else spec['b1'], notebook=False,
+                            max_workers=2).run_tasks([tasks_f[i] for i in spec['requested']], disable_progress=True, disable_top=True)
+            except Exception:
+                pass
+            lost = [t.name for t in ran if not labtech.Lab(storage=store, notebook=False).is_cached(t)]
+            if lost:
+                findings.append(core.Finding('C06:entry-of-an-executed-task-lost-after-a-session-whose-loads-failed', str(lost)))
         if mode == 'fresh_interpreter':
             case = {**spec, 'storage': store, 'obs_dir': obs2, 'backend': spec['b2']}
             cf = os.path.join(d, 'case.json')
@@ -175,7 +198,7 @@ def check_rerun(spec: dict) -> core.CaseResult:
         s2 = [r[1] for r in vu.read_trace(obs2) if r[0] == 'S' and not (r[5] == 'RZ' and r[1] in req_uncached)]
         if s2:
             findings.append(core.Finding('C06:cached-task-executed-again', f'{s2}'))
-        summary = {'first': sorted(t.name for t in ran), 'second_mode': mode, 'b1': spec['b1'], 'b2': spec['b2']}
+        summary = {**summary, 'first': sorted(t.name for t in ran), 'second_mode': mode, 'b1': spec['b1'], 'b2': spec['b2']}
     finally:
         try:
             os.chdir(cwd0)
@@ -188,8 +211,9 @@ def check_rerun(spec: dict) -> core.CaseResult:
         shutil.rmtree(d, ignore_errors=True)
     seen = set()
     findings = [f for f in findings if not (f.signature in seen or seen.add(f.signature))]
+    fault_done = summary.get('read_fault_session', False)
     nt = len(closure) >= 2 and (spec['second'] == 'fresh_interpreter' or spec['b1'] != spec['b2'] or spec['b2'] != 'serial')
-    labels = (f'b1={spec["b1"]}', f'b2={spec["b2"]}', f'second={spec["second"]}', f'rewrite={bool(spec.get("rewrite"))}', f'storage={spec.get("storage_kind", "local")}',
+    labels = (f'b1={spec["b1"]}', f'b2={spec["b2"]}', f'read_fault_session={bool(fault_done)}', f'second={spec["second"]}', f'rewrite={bool(spec.get("rewrite"))}', f'storage={spec.get("storage_kind", "local")}',
               'multi_frame_result' if 'bytes\', 70000' in str(spec) or '150000' in str(spec) or '300000' in str(spec) else 'small_results')
     return core.CaseResult(findings=findings, nontrivial=nt, labels=labels, summary=summary)
 
@@ -329,7 +353,7 @@ def rerun_spec(draw, backends, fresh_rate: int):
     second = 'fresh_interpreter' if draw(st.integers(0, 99)) < fresh_rate else draw(st.sampled_from(['same_lab', 'new_lab']))
     return {'nodes': nodes, 'requested': requested, 'b1': draw(st.sampled_from(backends)), 'b2': draw(st.sampled_from(backends)),
             'second': second, 'hashseed2': draw(st.integers(1, 4000)), 'relative_storage': draw(st.integers(0, 4)) == 0,
-            'rewrite': draw(st.integers(0, 2)) == 0, 'storage_kind': draw(st.sampled_from(['local', 'local', 'fsspec_local']))}
+            'rewrite': draw(st.integers(0, 2)) == 0, 'read_fault': draw(st.integers(0, 3)) == 0, 'storage_kind': draw(st.sampled_from(['local', 'local', 'fsspec_local']))}
 
 
 def plan(tier: str) -> list[dict]:
